@@ -272,6 +272,8 @@ void htp_verif_site(int site, const void *connp, long a, long b);
 #define HTP_VERIF_SITE_RES_COMPLETE_EARLY_DATA_OTHER  2
 #define HTP_VERIF_SITE_DECOMP_RESTART                 3
 #define HTP_VERIF_SITE_RES_LINE_AS_BODY               4
+#define HTP_VERIF_SITE_REQ_FINALIZE_AS_BODY           5
+#define HTP_VERIF_SITE_RES_FINALIZE_AS_BODY           6
 #endif
 
 #endif	/* _HTP_PRIVATE_H */
